@@ -286,12 +286,13 @@ func c07Classes(small bool) map[string][]c07Sc {
 
 // c07RunClasses runs the named classes `rounds` times each; a class is abandoned
 // after its first violation, the whole function after a non-returning call.
-func c07RunClasses(t *testing.T, m *vk.M, small bool, rounds int, names ...string) {
+// base makes the case indexes unique across the C07 test functions (replay filters by index).
+func c07RunClasses(t *testing.T, m *vk.M, base int, small bool, rounds int, names ...string) {
 	old := runtime.GOMAXPROCS(0)
 	defer runtime.GOMAXPROCS(old)
 	e := c07NewEnv(m)
 	cl := c07Classes(small)
-	idx := 0
+	idx := base
 	for _, name := range names {
 		scs := cl[name]
 		if len(scs) == 0 {
@@ -338,7 +339,7 @@ const c07GatedRule = "gated scenarios (callbacks sequenced by harness channels s
 func TestVerifC07Gated(t *testing.T) {
 	m := vk.New(t, "C07", c07GatedRule)
 	defer m.Done()
-	c07RunClasses(t, m, false, c07N(1, 20, 3), c07CoreClasses...)
+	c07RunClasses(t, m, 0, false, c07N(1, 20, 3), c07CoreClasses...)
 }
 
 // The following functions run the classes in which a terminating event happens strictly
@@ -347,23 +348,23 @@ func TestVerifC07Gated(t *testing.T) {
 func TestVerifC07LateMapperPanicAfterOutput(t *testing.T) {
 	m := vk.New(t, "C07", "reducer writes its output first (Write returned = caller took it), then a mapper panics: either the value or the re-raised panic is accepted; the call must return and leave no goroutine")
 	defer m.Done()
-	c07RunClasses(t, m, false, c07N(1, 20, 3), "reducer-early-output+late-mapper-panic")
+	c07RunClasses(t, m, 1000000, false, c07N(1, 20, 3), "reducer-early-output+late-mapper-panic")
 }
 
 func TestVerifC07LateGeneratorPanicAfterOutput(t *testing.T) {
 	m := vk.New(t, "C07", "reducer writes its output first, then the generator panics: value or re-raised panic accepted; the call must return and leave no goroutine")
 	defer m.Done()
-	c07RunClasses(t, m, false, c07N(1, 20, 3), "reducer-early-output+late-generator-panic")
+	c07RunClasses(t, m, 2000000, false, c07N(1, 20, 3), "reducer-early-output+late-generator-panic")
 }
 
 func TestVerifC07LateReducerPanicAfterOutput(t *testing.T) {
 	m := vk.New(t, "C07", "reducer writes its output, then panics: value or re-raised panic accepted; the call must return and leave no goroutine")
 	defer m.Done()
-	c07RunClasses(t, m, false, c07N(1, 20, 3), "reducer-early-output+late-reducer-panic")
+	c07RunClasses(t, m, 3000000, false, c07N(1, 20, 3), "reducer-early-output+late-reducer-panic")
 }
 
 func TestVerifC07LatePanicAfterCancel(t *testing.T) {
 	m := vk.New(t, "C07", "a mapper's cancel(err) / the context's cancellation has completed, then another mapper panics: error or re-raised panic accepted; the call must return and leave no goroutine")
 	defer m.Done()
-	c07RunClasses(t, m, false, c07N(1, 20, 3), "cancel+late-mapper-panic", "ctx-done+late-mapper-panic")
+	c07RunClasses(t, m, 4000000, false, c07N(1, 20, 3), "cancel+late-mapper-panic", "ctx-done+late-mapper-panic")
 }
